@@ -134,7 +134,8 @@ def _pytest_case(draw, tier):
         st.text(max_size=10).filter(lambda s: _encodable(s)).map(lambda s: ["str", s]),
         st.binary(max_size=10).map(lambda b: ["bytes", list(b)])), max_size=2))
     opaque = draw(st.lists(st.integers(0, 5), max_size=2))
-    return {"prog": prog, "ext": ext, "opaque": opaque}
+    # a function-local import of the names the plugin may have to import at module level
+    return {"prog": prog, "ext": ext, "opaque": opaque, "nested_import": draw(st.sampled_from([False, False, True]))}
 
 
 def _encodable(s):
@@ -160,6 +161,9 @@ def check_pytest(case):
         extra.append(f"    assert [Opaque({n})] == snapshot()")
     if len(extra) == 2:
         extra.append("    pass")
+    if case.get("nested_import"):
+        extra += ["", "def helper_with_local_import():", "    from inline_snapshot import HasRepr, external",
+                  "    return HasRepr, external"]
     src = src + "\n".join(extra) + "\n"
     d = drivers.make_project({"test_a.py": src})
     try:
